@@ -15,12 +15,19 @@ Parts
   defexpand: hand-written Def-expand groups: every sibling order of the correct content must validate, every mutated
              content must be rejected.
   column   : df_util.expand_defs / shrink_defs (column-wise variants) agree with the object-wise operations.
+  namespace: every part above (except duplicate) runs again in the configurations CONFIGS: the schema loaded under a namespace
+             prefix (load_schema_version('ts:8.3.0'), load_schema(path, schema_namespace='ts')) and the schema group
+             ['8.3.0', 'sc:score_2.0.0'] with definitions/annotations written un-prefixed, with sc:, or mixed.  Every tag carries
+             its prefix (ts:Def/A, (ts:Definition/A, (ts:Red, ts:Blue))); the oracle is the same tree model with the prefixes
+             added (Def <-> Def-expand keeps the tag's prefix, declared content keeps its own), same clause labels, the
+             configuration name is part of the failing input.
 
 The oracle never looks at DefinitionEntry.contents / HedTag._expandable etc.; the definitions are kept a second time
 as plain nested Python lists (SPEC_DEFS) from which the expected trees are computed.
 """
 import itertools
 import multiprocessing
+import os
 import re
 import signal
 
@@ -53,13 +60,31 @@ def parse(text):
     return stack[0]
 
 
+_NS = re.compile(r"^([A-Za-z]+:)?(.*)$", re.S)
+
+
+def split_ns(t):
+    """'ts:Def/A' -> ('ts:', 'Def/A'); 'Def/A' -> ('', 'Def/A')   (a schema namespace prefix is letters + ':')"""
+    m = _NS.match(t)
+    return m.group(1) or "", m.group(2)
+
+
 def _canon_tag(t):
-    low = t.casefold()
+    ns, body = split_ns(t)
+    low = body.casefold()
     if low.startswith("def/"):
-        return "Def/" + t[4:]
-    if low.startswith("def-expand/"):
-        return "Def-expand/" + t[11:]
-    return t
+        body = "Def/" + body[4:]
+    elif low.startswith("def-expand/"):
+        body = "Def-expand/" + body[11:]
+    return ns + body
+
+
+def is_def_tag(t):
+    return split_ns(t)[1].startswith("Def/")
+
+
+def is_defexpand_tag(t):
+    return split_ns(t)[1].startswith("Def-expand/")
 
 
 def unparse(nodes, top=True):
@@ -68,7 +93,7 @@ def unparse(nodes, top=True):
 
 
 def is_defexpand_group(node):
-    return isinstance(node, list) and any(isinstance(c, str) and c.startswith("Def-expand/") for c in node)
+    return isinstance(node, list) and any(isinstance(c, str) and is_defexpand_tag(c) for c in node)
 
 
 def deep_sorted(node):
@@ -104,13 +129,15 @@ def subst(node, value):
 
 
 def expansion_of(tag, spec_defs):
-    """the property's expansion of one tag 'Def/Name[/v]' (or 'Def-expand/...'), None if it has none"""
-    rest = tag.split("/", 1)[1]
+    """the property's expansion of one tag '[ns:]Def/Name[/v]' (or 'Def-expand/...'), None if it has none.  The
+    Def-expand tag is the Def tag under its other name (same namespace prefix); the content is the declared one"""
+    ns, body = split_ns(tag)
+    rest = body.split("/", 1)[1]
     name, _, value = rest.partition("/")
     d = spec_defs.get(name.casefold())
     if d is None or d["takes"] != bool(value):
         return None
-    grp = ["Def-expand/" + rest]
+    grp = [ns + "Def-expand/" + rest]
     if d["content"] is not None:
         grp.append(subst(d["content"], value))
     return grp
@@ -120,7 +147,7 @@ def model_expand(nodes, spec_defs):
     out = []
     for n in nodes:
         if isinstance(n, str):
-            e = expansion_of(n, spec_defs) if n.startswith("Def/") else None
+            e = expansion_of(n, spec_defs) if is_def_tag(n) else None
             out.append(e if e is not None else n)
         elif is_defexpand_group(n):
             out.append(n)           # already expanded: nothing inside is touched
@@ -135,8 +162,8 @@ def model_shrink(nodes):
         if isinstance(n, str):
             out.append(n)
         elif is_defexpand_group(n):
-            t = [c for c in n if isinstance(c, str) and c.startswith("Def-expand/")][0]
-            out.append("Def/" + t[len("Def-expand/"):])
+            ns, body = split_ns([c for c in n if isinstance(c, str) and is_defexpand_tag(c)][0])
+            out.append(ns + "Def/" + body[len("Def-expand/"):])
         else:
             out.append(model_shrink(n))
     return out
@@ -166,40 +193,160 @@ SPEC_DEFS = {
 }
 
 
+# --------------------------------------------------------------------------------------------------------------
+# configurations: the schema the annotations are read with, and the namespace prefix every tag is written with.
+# The oracle of a prefixed configuration is the un-prefixed behaviour with the prefix added to every tag (the prefix
+# is part of the tag's text; Def <-> Def-expand keeps it, declared content keeps its own).
+# --------------------------------------------------------------------------------------------------------------
+_SEP = re.compile(r"([,()])")
+
+
+class Config:
+    def __init__(self, name, what, loader, pfx="", def_pfx=None, tag_pfx=None):
+        self.name, self.what, self._loader, self.pfx = name, what, loader, pfx
+        self._def_pfx = def_pfx or {}      # definition name (case-folded) -> prefix of its Definition/Def/Def-expand tag
+        self._tag_pfx = tag_pfx or {}      # first level of any other tag (case-folded) -> prefix
+        self._schema = self._dd = self._spec = None
+
+    def schema(self):
+        if self._schema is None:
+            self._schema = self._loader()
+        return self._schema
+
+    def prefix_of(self, tag):
+        low = tag.casefold()
+        for head in ("def/", "def-expand/", "definition/"):
+            if low.startswith(head):
+                return self._def_pfx.get(tag[len(head):].split("/")[0].casefold(), self.pfx)
+        return self._tag_pfx.get(low.split("/")[0], self.pfx)
+
+    def tag(self, t):
+        return self.prefix_of(t) + t
+
+    def text(self, text):
+        """every tag of an annotation text (or of a template with the slots X, Y) gets its prefix"""
+        if not (self.pfx or self._def_pfx or self._tag_pfx):
+            return text
+        out = []
+        for piece in _SEP.split(text):
+            core = piece.strip()
+            if core and core not in ",()XY":
+                k = piece.index(core)
+                piece = piece[:k] + self.tag(core) + piece[k + len(core):]
+            out.append(piece)
+        return "".join(out)
+
+    def tree(self, node):
+        if isinstance(node, str):
+            return self.tag(node)
+        return [self.tree(c) for c in node]
+
+    def spec_defs(self):
+        """SPEC_DEFS as written in this configuration"""
+        if self._spec is None:
+            self._spec = {k: dict(d, content=None if d["content"] is None else self.tree(d["content"]),
+                                  pfx=self._def_pfx.get(k, self.pfx)) for k, d in SPEC_DEFS.items()}
+        return self._spec
+
+    def def_dict(self):
+        if self._dd is None:
+            from hed.models import DefinitionDict
+            self._dd = DefinitionDict(def_strings(self.spec_defs()), self.schema())
+        return self._dd
+
+
+def _xml_830():
+    import hed.schema
+    return os.path.join(os.path.dirname(hed.schema.__file__), "schema_data", "HED8.3.0.xml")
+
+
+_loaded = {}
+
+
+def _load(key, make):
+    if key not in _loaded:
+        _loaded[key] = make()
+    return _loaded[key]
+
+
+def _ns_version():
+    from hed.schema import load_schema_version
+    return _load("ts:8.3.0", lambda: load_schema_version("ts:8.3.0"))
+
+
+def _ns_path():
+    from hed.schema import load_schema
+    return _load("path ts", lambda: load_schema(_xml_830(), schema_namespace="ts"))
+
+
+def _group():
+    from hed.schema import load_schema_version
+    return _load("group", lambda: load_schema_version(["8.3.0", "sc:score_2.0.0"]))
+
+
+CONFIGS = {c.name: c for c in [
+    Config("plain", "load_schema_version('8.3.0'), tags without a prefix", schema),
+    Config("ns_version", "load_schema_version('ts:8.3.0'), every tag written ts:Tag", _ns_version, "ts:"),
+    Config("ns_path", "load_schema(<HED8.3.0.xml>, schema_namespace='ts'), every tag written ts:Tag", _ns_path, "ts:"),
+    Config("group_std", "schema group ['8.3.0', 'sc:score_2.0.0'], definitions and annotations in the un-prefixed member",
+           _group, ""),
+    Config("group_lib", "schema group ['8.3.0', 'sc:score_2.0.0'], every tag written sc:Tag", _group, "sc:"),
+    Config("group_mixed", "schema group ['8.3.0', 'sc:score_2.0.0']: definitions B, D, E are written (and used) as "
+           "sc:Definition/sc:Def, A, C, N un-prefixed; the tags Blue, Item, Distance, Black, Purple, Square are written "
+           "with sc:, all others without - inside definitions and outside", _group, "",
+           def_pfx={"b": "sc:", "d": "sc:", "e": "sc:"},
+           tag_pfx={k: "sc:" for k in ("blue", "item", "distance", "black", "purple", "square")}),
+]}
+NS_CONFIGS = [n for n in CONFIGS if n != "plain"]
+_cur = {"cfg": CONFIGS["plain"]}
+
+
+def use_config(name):
+    _cur["cfg"] = CONFIGS[name or "plain"]
+    return _cur["cfg"]
+
+
+def cfg():
+    return _cur["cfg"]
+
+
+def cur_schema():
+    return cfg().schema()
+
+
+def spec_defs():
+    return cfg().spec_defs()
+
+
 def def_strings(spec_defs):
     out = []
     for d in spec_defs.values():
-        nm = d["name"] + ("/#" if d["takes"] else "")
+        nm = d.get("pfx", "") + "Definition/" + d["name"] + ("/#" if d["takes"] else "")
         if d["content"] is None:
-            out.append(f"(Definition/{nm})")
+            out.append(f"({nm})")
         else:
-            out.append(f"(Definition/{nm}, {unparse([d['content']])})")
+            out.append(f"({nm}, {unparse([d['content']])})")
     return out
 
 
-_dd_cache = {}
-
-
 def def_dict():
-    """the dictionary of SPEC_DEFS.  A definition the real code refuses is REPORTED by run() (check_spec_defs) - the
-    other parts go on with what was accepted and report what follows from the gap"""
-    if "dd" not in _dd_cache:
-        from hed.models import DefinitionDict
-        _dd_cache["dd"] = DefinitionDict(def_strings(SPEC_DEFS), schema())
-    return _dd_cache["dd"]
+    """the dictionary of SPEC_DEFS in the current configuration.  A definition the real code refuses is REPORTED by run()
+    (check_spec_defs) - the other parts go on with what was accepted and report what follows from the gap"""
+    return cfg().def_dict()
 
 
 def check_spec_defs(w):
     """every definition of SPEC_DEFS is good by the property text: each must be accepted on its own"""
-    from hed.models import DefinitionDict, HedString
-    sch = schema()
-    for key, text in zip(SPEC_DEFS, def_strings(SPEC_DEFS)):
+    texts = def_strings(spec_defs())
+    for key, text in zip(SPEC_DEFS, texts):
         case = {"part": "accept", "text": text, "name": SPEC_DEFS[key]["name"] + ("/#" if SPEC_DEFS[key]["takes"] else ""),
-                "accept": True, "top_level": True, "ambiguous": False, "shape": "plain", "origin": "SPEC_DEFS"}
-        w.case(("accept", text), nontrivial=True, sample=case)
+                "accept": True, "top_level": True, "ambiguous": False, "shape": "plain", "origin": "SPEC_DEFS",
+                "config": cfg().name}
+        w.case(("accept", cfg().name, text), nontrivial=True, sample=case)
         check_accept(w, case)
     missing = sorted(set(SPEC_DEFS) - set(def_dict().defs))
-    w.check(not missing, "C09.accept.good_definition_added", {"part": "spec_defs", "definitions": def_strings(SPEC_DEFS)},
+    w.check(not missing, "C09.accept.good_definition_added",
+            {"part": "spec_defs", "definitions": texts, "config": cfg().name},
             observed={"missing from DefinitionDict(list_of_strings)": missing}, expected=sorted(SPEC_DEFS))
     return len(SPEC_DEFS)
 
@@ -257,8 +404,8 @@ def gen_definition_cases(quick):
         ambiguous = (not takes) and nhash >= 2      # the statement's iff can be read both ways: not judged
         placeholder_ok = (nhash == 1 and on_value_tag) if takes else (nhash == 0)
         accept = top_level and structure_ok and name_ok and (not has_def) and placeholder_ok
-        yield {"part": "accept", "text": text, "name": nm, "accept": accept, "top_level": top_level,
-               "ambiguous": ambiguous, "shape": shape}
+        yield {"part": "accept", "text": cfg().text(text), "name": nm, "accept": accept, "top_level": top_level,
+               "ambiguous": ambiguous, "shape": shape, "config": cfg().name}
 
 
 DEPTH_NAMES = [("Speed/#", True), ("Abc", False)]
@@ -273,9 +420,11 @@ def gen_depth_cases():
         doubles = [(c, list(ds), lay, n, onv, v) for c, ds, lay, n, onv, v in D.two_slot_contents()]
         for ctext, depths, layout, nhash, on_value_tag, value in singles + doubles:
             placeholder_ok = (nhash == 1 and on_value_tag) if takes else (nhash == 0)
-            case = {"part": "accept", "text": f"(Definition/{nm}, {ctext})", "name": nm, "accept": placeholder_ok,
+            case = {"part": "accept", "text": cfg().text(f"(Definition/{nm}, {ctext})"), "name": nm,
+                    "accept": placeholder_ok,
                     "top_level": True, "ambiguous": (not takes) and nhash >= 2, "shape": "plain",
-                    "origin": "depth", "layout": layout, "hash_depths": D.depth_of_hash(ctext), "content": ctext}
+                    "origin": "depth", "layout": layout, "hash_depths": D.depth_of_hash(ctext),
+                    "content": cfg().text(ctext), "config": cfg().name}
             if placeholder_ok and takes:
                 case["use_value"] = value
             yield case
@@ -284,12 +433,12 @@ def gen_depth_cases():
 def check_use_of_accepted(w, case, dd):
     """an accepted '/#' definition is usable: Def/Name/v validates and expands to the content with '#' replaced by v"""
     from hed.models import HedString
-    sch = schema()
+    sch = cur_schema()
     name = case["name"][:-2]
     v = case["use_value"]
-    use = f"Def/{name}/{v}"
+    use = cfg().tag(f"Def/{name}/{v}")
     content = parse(case["content"])[0]
-    expected = [[f"Def-expand/{name}/{v}", subst(content, v)]]
+    expected = [[cfg().tag(f"Def-expand/{name}/{v}"), subst(content, v)]]
     try:
         issues = HedString(use, sch, dd).validate(allow_placeholders=False)
         errs = [(i["code"], i["message"][:100]) for i in issues if i.get("severity", 1) == 1]
@@ -304,11 +453,11 @@ def check_use_of_accepted(w, case, dd):
 
 def check_accept(w, case):
     from hed.models import DefinitionDict, HedString
-    sch = schema()
+    sch = cur_schema()
     text = case["text"]
     stripped = case["name"][:-2] if case["name"].endswith("/#") else case["name"]
     # a dictionary that already holds an unrelated entry: the whole map must be unchanged on rejection
-    dd = DefinitionDict(["(Definition/Other, (Green))"], sch)
+    dd = DefinitionDict([cfg().text("(Definition/Other, (Green))")], sch)
     before = dict(dd.defs)
     try:
         issues = dd.check_for_definitions(HedString(text, sch))
@@ -408,21 +557,27 @@ TEMPLATES1 = ["X", "X, Square", "(X, Square)", "(Square, (X, Circle))", "((Squar
 TEMPLATES2 = ["X, (Y, Square)", "(X, (Y, (Square)))", "Square, ((X, Circle), (Y, Triangle))"]
 
 
-def gen_annotations(quick):
-    """(family, text, valid).  family 'def': written with Def tags; 'pre': the reparsed text of the expanded form;
-    'mixed': one Def next to one pre-expanded group."""
+def gen_annotations(quick, reduced=0):
+    """(family, text, valid) in the current configuration.  family 'def': written with Def tags; 'pre': the reparsed
+    text of the expanded form; 'mixed': one Def next to one pre-expanded group.
+    reduced = k > 0 (prefixed configurations): all one-use annotations, every k-th of the two-use ones."""
+    c = cfg()
     anns = []
     uses1 = USES
     for t in TEMPLATES1:
         for u, ok in uses1:
-            anns.append(("def", t.replace("X", u), ok))
+            anns.append(("def", c.text(t.replace("X", u)), ok))
     pairs = list(itertools.product(USES, USES))
     if quick:
         keep = [USES[0], USES[2], USES[4], USES[6], USES[8]]
         pairs = [(a, b) for a, b in itertools.product(keep, keep)]
+    no = 0
     for t in TEMPLATES2:
         for (u1, ok1), (u2, ok2) in pairs:
-            anns.append(("def", t.replace("X", u1).replace("Y", u2), ok1 and ok2))
+            no += 1
+            if reduced and no % reduced:
+                continue
+            anns.append(("def", c.text(t.replace("X", u1).replace("Y", u2)), ok1 and ok2))
     return anns
 
 
@@ -430,7 +585,8 @@ def derive_pre_and_mixed(def_anns, quick):
     """pre-expanded annotations are produced by the real expand_defs (relational: validation/shrink must agree with
     what expansion itself produces)"""
     from hed.models import HedString
-    sch, dd = schema(), def_dict()
+    sch, dd = cur_schema(), def_dict()
+    T = cfg().tag
     out = []
     seen = set()
     step = 3 if quick else 1
@@ -447,11 +603,11 @@ def derive_pre_and_mixed(def_anns, quick):
     # mixed: first slot stays a Def tag, second is written expanded
     for (u1, ok1), (u2, ok2) in itertools.product(USES[:8:2], USES[:8]):
         try:
-            g = str(HedString(u2, sch, dd).expand_defs())
+            g = str(HedString(T(u2), sch, dd).expand_defs())
         except Exception:  # noqa
             continue
-        out.append(("mixed", f"{u1}, ({g}, Square)", True))
-        out.append(("mixed", f"(Circle, {g}), (({u1}), Square)", True))
+        out.append(("mixed", f"{T(u1)}, ({g}, {T('Square')})", True))
+        out.append(("mixed", f"({T('Circle')}, {g}), (({T(u1)}), {T('Square')})", True))
     return out
 
 
@@ -472,7 +628,7 @@ def run_sequence(text, family, valid, ops, failures):
     """apply ops to one object, compare with the model after every step.  failures: list to append
     (clause, step, observed, expected).  Returns number of steps performed."""
     from hed.models import HedString
-    sch, dd = schema(), def_dict()
+    sch, dd = cur_schema(), def_dict()
     model = parse(text)
     origin_has_dx = has_defexpand(model)
     h = HedString(text, sch, dd)
@@ -501,7 +657,7 @@ def run_sequence(text, family, valid, ops, failures):
                     label = "C09.D9.expand_when_already_expanded"      # idempotence: expected no change
                 else:
                     label = "C09.D9.reexpand_after_shrink_of_preexpanded"
-                model = model_expand(model, SPEC_DEFS)
+                model = model_expand(model, spec_defs())
                 r = h.expand_defs()
                 mutated = True
                 if r is not h:
@@ -621,7 +777,7 @@ def run_copy_sequence(text, family, valid, prefix, suffix, failures):
     from hed.models import HedString
     from hed.models.hed_group import HedGroup
     from rt import c09_struct as S
-    sch, dd = schema(), def_dict()
+    sch, dd = cur_schema(), def_dict()
     model0 = parse(text)
     origin_has_dx = has_defexpand(model0)
     reported = set()
@@ -647,7 +803,7 @@ def run_copy_sequence(text, family, valid, prefix, suffix, failures):
         try:
             if op == "expand":
                 label = _expand_label(st["mutated"], st["model"], origin_has_dx)
-                st["model"] = model_expand(st["model"], SPEC_DEFS)
+                st["model"] = model_expand(st["model"], spec_defs())
                 r = h.expand_defs()
                 st["mutated"] = True
                 if r is not h:
@@ -779,8 +935,9 @@ def run_copy_sequence(text, family, valid, prefix, suffix, failures):
 
 
 def _copyops_worker(args):
-    text, family, valid, max_prefix, max_suffix, timeout = args
-    schema()
+    text, family, valid, max_prefix, max_suffix, timeout, cname = args
+    use_config(cname)
+    cur_schema()
     out = []
     nseq = 0
     signal.signal(signal.SIGALRM, _alarm)
@@ -795,16 +952,17 @@ def _copyops_worker(args):
         finally:
             signal.alarm(0)
         for clause, step, obs, exp in fl:
-            out.append((clause, {"part": "copyops", "annotation": text, "family": family, "valid": valid,
+            out.append((clause, {"part": "copyops", "config": cname, "annotation": text, "family": family, "valid": valid,
                                  "prefix": list(prefix), "suffix": [list(s) for s in suffix],
                                  "ops": list(prefix) + ["copy"] + [f"{o}@{t}" for t, o in suffix],
                                  "failed_at_step": step}, obs, exp))
-    return text, nseq, out
+    return cname, nseq, out
 
 
 def _ops_worker(args):
-    text, family, valid, maxlen, timeout = args
-    schema()
+    text, family, valid, maxlen, timeout, cname = args
+    use_config(cname)
+    cur_schema()
     out = []
     nseq = 0
     signal.signal(signal.SIGALRM, _alarm)
@@ -819,9 +977,9 @@ def _ops_worker(args):
         finally:
             signal.alarm(0)
         for clause, step, obs, exp in fl:
-            out.append((clause, {"part": "ops", "annotation": text, "family": family, "valid": valid, "ops": list(ops),
-                                 "failed_at_step": step}, obs, exp))
-    return text, nseq, out
+            out.append((clause, {"part": "ops", "config": cname, "annotation": text, "family": family, "valid": valid,
+                                 "ops": list(ops), "failed_at_step": step}, obs, exp))
+    return cname, nseq, out
 
 
 def _single_use(text, fam):
@@ -832,7 +990,7 @@ def select_copy_annotations(jobs, quick):
     """annotations of the copyops part: every single-use annotation, and every sixth of the others"""
     out = []
     k = 0
-    for text, fam, ok, _, _ in jobs:
+    for text, fam, ok, *_ in jobs:
         if not _single_use(text, fam):
             k += 1
             if quick and k % 6:
@@ -854,8 +1012,10 @@ WRAPS = ["X", "(X, Square)", "(Square, (Circle, X))"]
 
 
 def gen_defexpand_cases(quick):
+    c, sd = cfg(), spec_defs()
+    T = c.tag
     for use in DX_USES:
-        exp = expansion_of("Def/" + use, SPEC_DEFS)
+        exp = expansion_of(T("Def/" + use), sd)
         tag = exp[0]
         content = exp[1] if len(exp) > 1 else None
         goods = []
@@ -867,16 +1027,17 @@ def gen_defexpand_cases(quick):
                 goods.append([perm, tag])
         for wrap in WRAPS:
             for g in goods:
-                yield {"part": "defexpand", "text": wrap.replace("X", unparse([g])), "use": use, "correct": True}
+                yield {"part": "defexpand", "text": c.text(wrap).replace("X", unparse([g])), "use": use, "correct": True,
+                       "config": c.name}
         # mutations of the content: every one differs from the expansion as a multiset tree
         bads = []
         if content is None:
-            bads.append([tag, ["Red"]])
+            bads.append([tag, [T("Red")]])
         else:
             bads.append([tag])                                             # content group missing
-            bads.append([tag, content + ["Triangle"]])                     # one tag too many
-            bads.append([tag, content[1:]] if len(content) > 1 else [tag, ["Triangle"]])   # one child missing
-            bads.append([tag, ["Triangle"] + content[1:]])                 # first child replaced
+            bads.append([tag, content + [T("Triangle")]])                  # one tag too many
+            bads.append([tag, content[1:]] if len(content) > 1 else [tag, [T("Triangle")]])   # one child missing
+            bads.append([tag, [T("Triangle")] + content[1:]])              # first child replaced
             bads.append([tag, [content]])                                  # extra nesting level
             flat = _flatten(content)
             if flat != content:
@@ -885,11 +1046,12 @@ def gen_defexpand_cases(quick):
                 v = use.split("/", 1)[1]
                 other = "y" if v != "y" else "z"
                 if use.casefold().startswith("b"):
-                    bads.append([tag, subst(SPEC_DEFS["b"]["content"], other)])          # another value plugged in
-                bads.append([tag, SPEC_DEFS[use[0].casefold()]["content"]])              # '#' left in place
+                    bads.append([tag, subst(sd["b"]["content"], other)])                 # another value plugged in
+                bads.append([tag, sd[use[0].casefold()]["content"]])                     # '#' left in place
         for b in bads:
             for wrap in WRAPS[:2]:
-                yield {"part": "defexpand", "text": wrap.replace("X", unparse([b])), "use": use, "correct": False}
+                yield {"part": "defexpand", "text": c.text(wrap).replace("X", unparse([b])), "use": use, "correct": False,
+                       "config": c.name}
 
 
 def _flatten(node):
@@ -905,7 +1067,7 @@ def _flatten(node):
 def check_defexpand(w, case, own_order_texts):
     from hed.models import HedString
     from hed.validator import HedValidator
-    sch, dd = schema(), def_dict()
+    sch, dd = cur_schema(), def_dict()
     text = case["text"]
     try:
         issues = HedValidator(sch, dd).validate(HedString(text, sch, dd), allow_placeholders=False)
@@ -933,12 +1095,12 @@ def norm_text(text):
 def own_expansion_texts():
     """the texts the real expand_defs produces for each use inside each wrap (the order the code itself emits)"""
     from hed.models import HedString
-    sch, dd = schema(), def_dict()
+    sch, dd = cur_schema(), def_dict()
     out = set()
     for use in DX_USES:
         for wrap in WRAPS:
             try:
-                out.add(norm_text(str(HedString(wrap.replace("X", "Def/" + use), sch, dd).expand_defs())))
+                out.add(norm_text(str(HedString(cfg().text(wrap.replace("X", "Def/" + use)), sch, dd).expand_defs())))
             except Exception:  # noqa
                 pass
     return out
@@ -950,8 +1112,8 @@ def own_expansion_texts():
 def check_column(w, texts):
     import pandas as pd
     from hed.models import HedString, df_util
-    sch, dd = schema(), def_dict()
-    case = {"part": "column", "texts": texts}
+    sch, dd = cur_schema(), def_dict()
+    case = {"part": "column", "texts": texts, "config": cfg().name}
     try:
         expected_exp = [str(HedString(t, sch, dd).expand_defs()) for t in texts]
         ser = pd.Series(list(texts))
@@ -987,8 +1149,15 @@ def run(w: Workload):
               "on the original, copy(), <=2 operations (thorough: all single-use annotations, half of them with <=3, and half of the others) addressed to the original or "
               "the copy, "
               "with text, identity-snapshot, disjointness and parent-pointer checks after each step; defexpand: every sibling order of every correct Def-expand group and 6-8 mutations each; "
-              "a case is distinct by its text (+ op sequence)")
+              "a case is distinct by its text (+ op sequence); "
+              "namespace configurations: the accept (a share of the product, all placeholder-depth cases), ops, copyops, defexpand "
+              "and column generators run again with the schema loaded under a namespace prefix (load_schema_version('ts:8.3.0'), "
+              "load_schema(path, schema_namespace='ts'), the group ['8.3.0','sc:score_2.0.0'] with definitions in either or both "
+              "namespaces) and every tag written with its prefix; oracle = the un-prefixed tree model with the prefixes added")
     schema()
+    for cname in NS_CONFIGS:            # loaded once here, inherited by the pool workers
+        CONFIGS[cname].schema()
+    use_config("plain")
     # ---- accept
     n = 0
     for case in gen_definition_cases(w.quick):
@@ -1021,8 +1190,36 @@ def run(w: Workload):
         w.case(("dup", case["d1"], case["d2"], case["how"]), sample=case)
         check_duplicate(w, case)
     w.part("duplicate", cases=n, bound="3 first definitions x 6 second names x 3 ways of adding", exhaustive=True)
+    # ---- accept under a namespace: the product is dealt out over the configurations (quick: every second case),
+    #      the placeholder-depth cases (with the use of the accepted definition) and SPEC_DEFS run in every configuration
+    n = 0
+    gens = {}
+    for cname in NS_CONFIGS:
+        use_config(cname)
+        gens[cname] = list(gen_definition_cases(w.quick))
+    for i in range(len(gens[NS_CONFIGS[0]])):
+        if w.quick and i % 2:
+            continue
+        cname = NS_CONFIGS[(i // 2 if w.quick else i) % len(NS_CONFIGS)]
+        use_config(cname)
+        case = gens[cname][i]
+        n += 1
+        w.case(("accept", cname, case["text"]), nontrivial=True, sample=case)
+        check_accept(w, case)
+    for cname in NS_CONFIGS:
+        use_config(cname)
+        for case in gen_depth_cases():
+            n += 1
+            w.case(("accept", cname, case["text"]), nontrivial=True, sample=case)
+            check_accept(w, case)
+        n += check_spec_defs(w)
+    use_config("plain")
+    w.part("accept under a schema namespace", cases=n, bound="the 7 x 16 x 6 product dealt out over the %d namespace "
+           "configurations%s; all placeholder-depth cases and the 6 definitions of SPEC_DEFS in every configuration; every "
+           "tag (Definition, content, neighbours) written with its prefix" %
+           (len(NS_CONFIGS), " (quick: every second case)" if w.quick else ""), exhaustive=not w.quick)
 
-    # ---- ops
+    # ---- ops  (plain configuration, then the namespace configurations: same generator, every tag prefixed)
     maxlen = 3 if w.quick else 4
     anns = gen_annotations(w.quick)
     anns += derive_pre_and_mixed(anns, w.quick)
@@ -1032,72 +1229,134 @@ def run(w: Workload):
         if text in seen:
             continue
         seen.add(text)
-        jobs.append((text, fam, ok, maxlen, 20))
+        jobs.append((text, fam, ok, maxlen, 20, "plain"))
+    ns_anns = {}
+    ns_jobs = []
+    for k, cname in enumerate(NS_CONFIGS):
+        use_config(cname)
+        a = gen_annotations(w.quick, reduced=3 if w.quick else 4)
+        a += derive_pre_and_mixed(a, w.quick)
+        ns_anns[cname] = a
+        seen = set()
+        one = other = 0
+        for fam, text, ok in a:
+            if text in seen:
+                continue
+            seen.add(text)
+            if w.quick:             # quick: every configuration gets every second one-use annotation (3 of the 6 templates
+                if _single_use(text, fam):      # x all 11 uses, alternating) and a tenth of the others (dealt out)
+                    one += 1
+                    if ((one - 1) // len(USES)) % 2 != k % 2:
+                        continue
+                else:
+                    other += 1
+                    if other % (2 * len(NS_CONFIGS)) != k:
+                        continue
+            ns_jobs.append((text, fam, ok, maxlen, 20, cname))
+    use_config("plain")
     records = []
-    nseq = 0
+    nseq = {}
     with multiprocessing.Pool(min(14, max(1, multiprocessing.cpu_count() - 2))) as pool:
-        for text, k, out in pool.imap(_ops_worker, jobs, chunksize=2):
-            nseq += k
+        for cname, k, out in pool.imap(_ops_worker, jobs + ns_jobs, chunksize=2):
+            nseq[cname] = nseq.get(cname, 0) + k
             records.extend(out)
     fams = {}
-    for text, fam, ok, _, _ in jobs:
-        fams[fam] = fams.get(fam, 0) + 1
+    ns_fams = {}
+    for text, fam, ok, _, _, cname in jobs + ns_jobs:
+        if cname == "plain":
+            fams[fam] = fams.get(fam, 0) + 1
+        else:
+            ns_fams.setdefault(cname, {})
+            ns_fams[cname][fam] = ns_fams[cname].get(fam, 0) + 1
         for ops in all_sequences(maxlen):
-            w.case(("ops", text, ops), nontrivial=len(ops) > 0,
-                   sample={"annotation": text, "family": fam, "ops": list(ops)})
+            w.case(("ops", text, ops) if cname == "plain" else ("ops", cname, text, ops), nontrivial=len(ops) > 0,
+                   sample={"config": cname, "annotation": text, "family": fam, "ops": list(ops)})
     for clause, inp, obs, exp in _minimal_first(records):
         w.fail(clause, inp, observed=obs, expected=exp)
-    w.part("ops", cases=nseq, bound=f"{len(jobs)} annotations {fams} (depth<=3, <=2 Def uses) x all "
+    w.part("ops", cases=nseq.get("plain", 0), bound=f"{len(jobs)} annotations {fams} (depth<=3, <=2 Def uses) x all "
            f"{sum(5 ** i for i in range(maxlen + 1))} operation sequences of length<={maxlen}", exhaustive=True)
+    w.part("ops under a schema namespace", cases=sum(v for c, v in nseq.items() if c != "plain"),
+           bound=f"the same annotations with every tag carrying its namespace prefix, in {len(NS_CONFIGS)} configurations "
+           f"(annotations by family: {ns_fams}): every one-use annotation (6 templates x 11 uses), every "
+           f"{3 if w.quick else 4}th of the two-use ones, their expanded and mixed forms"
+           f"{' (quick: per configuration 3 of the 6 one-use templates x all 11 uses, alternating, and a tenth of the others)' if w.quick else ''} x all "
+           f"operation sequences of length<={maxlen}; configurations: " +
+           "; ".join(f"{c} = {CONFIGS[c].what}" for c in NS_CONFIGS), exhaustive=True)
 
     # ---- copyops
     # quick: the selected annotations with suffix <= 2; thorough: every single-use annotation (every second one with
     # suffix <= 3) and every second of the others (budget: the thorough tier must fit 15 min on a loaded machine)
     max_prefix = 1 if w.quick else 2
     if w.quick:
-        cjobs = [(text, fam, ok, max_prefix, 2, 20) for text, fam, ok in select_copy_annotations(jobs, True)]
+        cjobs = [(text, fam, ok, max_prefix, 2, 20, "plain") for text, fam, ok in select_copy_annotations(jobs, True)]
     else:
         cjobs = []
         k1 = k2 = 0
-        for text, fam, ok, _, _ in jobs:
+        for text, fam, ok, *_ in jobs:
             if _single_use(text, fam):
                 k1 += 1
-                cjobs.append((text, fam, ok, max_prefix, 3 if k1 % 2 else 2, 20))
+                cjobs.append((text, fam, ok, max_prefix, 3 if k1 % 2 else 2, 20, "plain"))
             else:
                 k2 += 1
                 if k2 % 2:
-                    cjobs.append((text, fam, ok, max_prefix, 2, 20))
+                    cjobs.append((text, fam, ok, max_prefix, 2, 20, "plain"))
+    # namespace configurations: one-use annotations; quick: 4 per configuration (uses and templates rotate), thorough: all
+    ns_cjobs = []
+    for k, cname in enumerate(NS_CONFIGS):
+        single = [j for j in ns_jobs if j[5] == cname and _single_use(j[0], j[1])]
+        if w.quick:
+            nu = len(USES)
+            by_use = {}
+            for j in single:
+                by_use.setdefault(next(i for i, (u, _) in enumerate(USES) if CONFIGS[cname].tag(u) in j[0]), []).append(j)
+            picks = []
+            for i, u in enumerate([(0, 5), (2, 6), (4, 8), (5, 7), (2, 0)][k]):   # two uses per configuration
+                picks.append(by_use[u][(i + k) % len(by_use[u])])
+            single = picks
+        ns_cjobs += [(j[0], j[1], j[2], max_prefix, 2, 20, cname) for j in single]
     seqs_by_len = {k: list(copy_sequences(max_prefix, k)) for k in (2, 3)}
     records = []
-    nseq = 0
+    nseq = {}
     with multiprocessing.Pool(min(14, max(1, multiprocessing.cpu_count() - 2))) as pool:
-        for text, k, out in pool.imap(_copyops_worker, cjobs, chunksize=1):
-            nseq += k
+        for cname, k, out in pool.imap(_copyops_worker, cjobs + ns_cjobs, chunksize=1):
+            nseq[cname] = nseq.get(cname, 0) + k
             records.extend(out)
     cf = {}
-    for text, fam, ok, _, ms, _ in cjobs:
-        cf[fam] = cf.get(fam, 0) + 1
+    for text, fam, ok, _, ms, _, cname in cjobs + ns_cjobs:
+        if cname == "plain":
+            cf[fam] = cf.get(fam, 0) + 1
         for prefix, suffix in seqs_by_len[ms]:
-            w.case(("copyops", text, prefix, suffix), nontrivial=True,
-                   sample={"annotation": text, "family": fam, "prefix": list(prefix), "suffix": [list(x) for x in suffix]})
+            w.case(("copyops", text, prefix, suffix) if cname == "plain" else ("copyops", cname, text, prefix, suffix),
+                   nontrivial=True, sample={"config": cname, "annotation": text, "family": fam, "prefix": list(prefix),
+                                            "suffix": [list(x) for x in suffix]})
     for clause, inp, obs, exp in _minimal_first(records):
         w.fail(clause, inp, observed=obs, expected=exp)
     n3 = sum(1 for j in cjobs if j[4] == 3)
-    w.part("copyops", cases=nseq, bound=f"{len(cjobs)} annotations {cf} x all sequences: {len(list(copy_prefixes(max_prefix)))} "
+    w.part("copyops", cases=nseq.get("plain", 0), bound=f"{len(cjobs)} annotations {cf} x all sequences: {len(list(copy_prefixes(max_prefix)))} "
            f"prefixes of <= 2 operations of {{expand,shrink,validate}} on the original (quick: at most one validate, next to an "
            f"expand/shrink), copy(), <= 2 ({len(seqs_by_len[2])} sequences; for {n3} of the "
            f"annotations <= 3, {len(seqs_by_len[3])} sequences) operations of {{expand,shrink,validate,"
            f"copy every nested group and Def tag}} each addressed to the original or to the copy", exhaustive=True)
+    w.part("copyops under a schema namespace", cases=sum(v for c, v in nseq.items() if c != "plain"),
+           bound=f"{len(ns_cjobs)} one-use annotations with prefixed tags ({'2 per configuration, uses and templates rotating' if w.quick else 'all of every configuration'}) "
+           f"x the same {len(seqs_by_len[2])} sequences (prefix, copy(), <= 2 operations on either object)", exhaustive=True)
 
     # ---- defexpand
-    own = own_expansion_texts()
     n = 0
-    for case in gen_defexpand_cases(w.quick):
-        n += 1
-        w.case(("dx", case["text"]), sample=case)
-        check_defexpand(w, case, own)
-    w.part("defexpand", cases=n, bound="8 uses x all sibling orders of the content (both tag positions) x 3 wraps; "
+    ndx = {}
+    for cname in ["plain"] + NS_CONFIGS:
+        use_config(cname)
+        own = own_expansion_texts()
+        for case in gen_defexpand_cases(w.quick):
+            ndx[cname] = ndx.get(cname, 0) + 1
+            w.case(("dx", case["text"]) if cname == "plain" else ("dx", cname, case["text"]), sample=case)
+            check_defexpand(w, case, own)
+    use_config("plain")
+    w.part("defexpand", cases=ndx["plain"], bound="8 uses x all sibling orders of the content (both tag positions) x 3 wraps; "
            "6-8 content mutations x 2 wraps", exhaustive=True)
+    w.part("defexpand under a schema namespace", cases=sum(v for c, v in ndx.items() if c != "plain"),
+           bound=f"the same groups with every tag prefixed, in each of the {len(NS_CONFIGS)} namespace configurations",
+           exhaustive=True)
 
     # ---- column
     texts = [t for fam, t, ok in anns if fam == "def" and ok]
@@ -1105,6 +1364,16 @@ def run(w: Workload):
     check_column(w, texts)
     w.part("column", cases=len(texts), bound="all valid Def-form annotations as one Series / one DataFrame column",
            exhaustive=False)
+    ncol = 0
+    for cname in NS_CONFIGS:
+        use_config(cname)
+        texts = [t for fam, t, ok in ns_anns[cname] if fam == "def" and ok]
+        ncol += len(texts)
+        w.case(("column", cname, len(texts)), sample={"config": cname, "column_rows": len(texts)})
+        check_column(w, texts)
+    use_config("plain")
+    w.part("column under a schema namespace", cases=ncol, bound="the valid Def-form annotations of every namespace "
+           "configuration as one Series / one DataFrame column", exhaustive=False)
 
     w.exhaustive = True
     w.not_covered += [
@@ -1116,6 +1385,8 @@ def run(w: Workload):
         "annotations with more than two Def uses or depth > 3; operation sequences longer than 4",
         "def_expand_gather / process_def_expands (reconstruction of definitions from Def-expand groups)",
         "value/unit validity of the plugged value (C11)",
+        "a definition written in one namespace and used through a Def tag of another one (which prefix the expansion "
+        "carries is not stated); namespace prefixes other than 'ts:' / 'sc:'; duplicate detection under a namespace",
         "parent pointers are checked on the original and on one HedString.copy() of it (copyops part); copies of copies, "
         "_original_children contents and get_as_original() are only observed through str() and later operations",
     ]
@@ -1131,6 +1402,7 @@ def replay(w: Workload, case: dict):
     inp = case["input"]
     part = inp.get("part")
     schema()
+    use_config(inp.get("config") if part != "duplicate" else "plain")
     def_dict()
     if part == "accept":
         check_accept(w, inp)
